@@ -17,6 +17,9 @@
 #ifndef SSLEN   // scriptSig length of input 0
 #define SSLEN 0
 #endif
+#ifndef WITLEN  // byte length of a single witness stack item on input 0 (0 = no witness); never counts towards the size rule
+#define WITLEN 0
+#endif
 #ifndef PKLEN   // scriptPubKey length of every output
 #define PKLEN 0
 #endif
@@ -79,6 +82,10 @@ extern "C" void h_checktx()
         for (int k = 0; k < SSLEN && k < 4; k++) m.vin[0].scriptSig[k] = nondet_u8();
 #endif
     }
+#if WITLEN > 0 && NIN > 0
+    m.vin[0].scriptWitness.stack.resize(1); m.vin[0].scriptWitness.stack[0].resize(WITLEN);
+    for (int k = 0; k < WITLEN && k < 4; k++) m.vin[0].scriptWitness.stack[0][k] = nondet_u8();
+#endif
     for (int i = 0; i < NOUT; i++) {
         val[i] = nondet_i64(); m.vout[i].nValue = val[i];
         if (PKLEN > 0) m.vout[i].scriptPubKey.resize(PKLEN);
